@@ -953,6 +953,54 @@ func ruleP11Precedence(p *Prog, r *Report) {
 				r.check(c != nil && staticCallee(c) != nil && fnBase(staticCallee(c)) == "NoReformat", rule, m.meth+":explicit-arg", p.instrPos(ret), "an explicit --"+m.flag+" value is taken as is", "an explicit --"+m.flag+" value is reformatted")
 				continue
 			}
+			// single exit: one variable that starts as NoReformat and is overwritten — by the
+			// auto-style directive and the configured preference — only when the flag is absent
+			if u, ok := strip(retResult(ret, 0)).(*ssa.UnOp); ok && u.Op == token.MUL {
+				if cell := cellOf(u.X); cell != nil {
+					absent := func(b *ssa.BasicBlock) bool {
+						for _, g := range guardsOf(b) {
+							if x, isNil, ok := nilFact(g); ok && isNil {
+								if tag, _ := fieldTagOfLoad(x); tag == m.flag {
+									return true
+								}
+							}
+						}
+						return false
+					}
+					hasNo, okNo, okOthers := false, true, true
+					for _, st := range storesTo(cell) {
+						sc, _ := callOf(st.val)
+						if sc == nil || staticCallee(sc) == nil {
+							continue
+						}
+						at := st.in.Block()
+						if st.in.Parent() != f {
+							// a store inside the Unwrap callback: where the callback is handed over
+							at = nil
+							for _, mc := range closureUses(f, st.in.Parent()) {
+								if in, isIn := mc.(ssa.Instruction); isIn {
+									at = in.Block()
+								}
+							}
+						}
+						switch fnBase(staticCallee(sc)) {
+						case "NoReformat":
+							hasNo = true
+							if at == nil || len(guardsOf(at)) != 0 {
+								okNo = false
+							}
+						default:
+							if at == nil || !absent(at) {
+								okOthers = false
+							}
+						}
+					}
+					if hasNo {
+						sawNo = true
+						r.check(okNo && okOthers, rule, m.meth+":explicit-arg", p.instrPos(ret), "an explicit --"+m.flag+" value is taken as is (the directive stays NoReformat unless the flag is absent)", "an explicit --"+m.flag+" value can be reformatted: the directive is overwritten although the flag was given")
+					}
+				}
+			}
 			sawDefault = true
 			// value is a cell: initial store AutoStyle, overwritten in a closure passed to config.<cfg>.Unwrap with ReformatExplicitly
 			good := false
